@@ -38,7 +38,7 @@ def pascal(s):
 
 
 def snake(s):
-    s = re.sub(r"([a-z0-9])([A-Z])", r"\\1_\\2", s)
+    s = re.sub(r"([a-z0-9])([A-Z])", r"\1_\2", s)
     parts = [p for p in re.split(r"[^A-Za-z0-9]+", s) if p]
     return "_".join(p.lower() for p in parts) or "x"
 
@@ -109,16 +109,51 @@ INT_RANGES.update({f"u{b}": (0, 2 ** b - 1) for b in (8, 16, 32, 64, 128)})
 INT_RANGES.update({"isize": INT_RANGES["i64"], "usize": INT_RANGES["u64"]})
 
 
+def shape(nf):
+    """A normal form with loop elements and element tokens made anonymous: the same condition on different elements has one shape."""
+    if not isinstance(nf, tuple):
+        return nf
+    if nf and nf[0] in ("elem", "tok"):
+        return ("•",)
+    return tuple(shape(x) for x in nf)
+
+
+def shape_str(nf):
+    return og.nf_str(shape(nf))
+
+
 class Derivation:
     """Choices of one sample."""
 
-    def __init__(self, index):
+    def __init__(self, index, target_ctx=None):
         self.index = index
         self.star_counts = {}
         self.bools = {}
         self.kinds = {}
+        # directed derivation: the decisions on the way to one emit site are fixed (for every element alike), the rest as usual
+        self.force = {}           # shape of a condition -> truth value
+        self.force_variant = {}   # shape of a matched value -> variant name
+        self.force_star = set()   # shapes of iterated collections that must not be empty
+        self.forced_keys = set()
+        self.variants = {}
+        for c in (target_ctx or ()):
+            if c[0] == "star":
+                self.force_star.add(shape_str(c[1]))
+            else:
+                cond, branch = c[1], c[2]
+                while cond[0] == "not":
+                    cond, branch = cond[1], not branch
+                if cond[0] == "islet" and not cond[1].startswith(("Some(", "Ok(", "Err(")) and cond[1].rsplit("::", 1)[-1] not in ("None", "_"):
+                    if branch:
+                        self.force_variant[shape_str(cond[2])] = cond[1].split("(")[0].split("{")[0].rsplit("::", 1)[-1].strip()
+                else:
+                    self.force.setdefault(shape_str(cond), branch)
 
-    def count(self, key):
+    def count(self, key, shape_key=None):
+        if shape_key is not None and shape_key in self.force_star:
+            if key not in self.star_counts:
+                self.star_counts[key] = 1
+            return self.star_counts[key]
         if key not in self.star_counts:
             cyc = [[2, 1], [1, 2], [2, 2], [0, 1], [1, 0]][self.index % 5]
             self.star_counts[key] = cyc[(zlib.crc32(key.encode()) >> 3) % 2]
@@ -195,26 +230,27 @@ class Renderer:
         """decide a condition consistently"""
         c = cond
         if c[0] == "not":
-            return not self.truth(c[1])
+            t = self.truth(c[1])
+            return None if t is None else not t
         if c[0] == "islet":
             pat = c[1]
             base = c[2]
             if og.nf_str(base) == "None" or (base[0] == "const" and base[1].endswith("None")):
                 return not pat.startswith("Some(")
             if pat.startswith("Some("):
-                return self.d.boolean("some:" + self.path(base))
+                return self._bool("some:" + self.path(base), c, True)
             if pat == "None" or pat.endswith("::None"):
-                return not self.d.boolean("some:" + self.path(base))
+                return self._bool("some:" + self.path(base), c, False)
             # enum variant patterns: decided by the chosen variant of the value
             return None
         if c[0] == "call":
             name = str(c[1]).rsplit("::", 1)[-1]
             if name == "is_some":
-                return self.d.boolean("some:" + self.path(c[2][0]))
+                return self._bool("some:" + self.path(c[2][0]), c, True)
             if name == "is_none":
-                return not self.d.boolean("some:" + self.path(c[2][0]))
+                return self._bool("some:" + self.path(c[2][0]), c, False)
             if name == "is_empty":
-                return self.d.count("star:" + self.path(c[2][0])) == 0
+                return self.d.count("star:" + self.path(c[2][0]), shape_str(c[2][0])) == 0
             if name == "is_string":
                 return self.d.kind(self.path(c[2][0])) == "string"
             if name == "is_other":
@@ -229,8 +265,20 @@ class Renderer:
             if "Ignore" in s or "rust_name" in s or "segment" in s:
                 return False
         if c[0] == "field":
-            return self.d.boolean("flag:" + self.path(c))
-        return self.d.boolean("cond:" + og.nf_str(c)[:200])
+            return self._bool("flag:" + self.path(c), c, True)
+        return self._bool("cond:" + og.nf_str(c)[:200], c, True)
+
+    def _bool(self, key, cond, positive):
+        """the derivation's decision `key`, which makes `cond` true when `positive`; a directed derivation fixes the decision the
+        first time a condition of a forced shape asks for it (all spellings of one decision share the key)"""
+        d = self.d
+        if d.force and key not in d.forced_keys:
+            sh = shape_str(cond)
+            if sh in d.force:
+                d.bools[key] = d.force[sh] if positive else not d.force[sh]
+                d.forced_keys.add(key)
+        v = d.boolean(key)
+        return v if positive else not v
 
     def lexeme(self, nf):
         """textual value of a normal form"""
@@ -321,7 +369,7 @@ class Renderer:
                 S = nd[1]
                 base = self.path(S)
                 prefix = "svc" if base.endswith("soap_services") else "bnd" if base.endswith("soap_bindings") else None
-                n = self.d.count("star:" + base)
+                n = self.d.count("star:" + base, shape_str(S))
                 for i in range(n):
                     label = f"{prefix}_{i}" if prefix else f"{base}_{i}"
                     self.render(subst_tree(nd[2], ("elem", S), ("tok", label)))
@@ -337,11 +385,16 @@ class Renderer:
         pat, base = cond[1], cond[2]
         key = "variant:" + self.path(base)
         variants = self._variants_for(base)
+        name = pat.split("(")[0].split("{")[0].rsplit("::", 1)[-1].strip()
+        forced = self.d.force_variant.get(shape_str(base)) if self.d.force_variant else None
+        if forced is not None:
+            self.d.variants[key] = forced
+        if key in self.d.variants:
+            return name == self.d.variants[key]
         if not variants:
-            return self.d.boolean("cond:" + og.nf_str(cond)[:200])
+            return self._bool("cond:" + og.nf_str(cond)[:200], cond, True)
         idx = (zlib.crc32(key.encode()) + self.d.index) % len(variants)
         chosen = variants[idx]
-        name = pat.split("(")[0].split("{")[0].rsplit("::", 1)[-1].strip()
         return name == chosen
 
     def _variants_for(self, base):
@@ -418,16 +471,22 @@ def _subst(nf, old, new):
     return nf
 
 
-def sample(F, X, index):
-    """One sample document: (text, line map [(site, fn)], methods, free fns, structs)"""
+def sample(F, X, index, target_ctx=None):
+    """One sample document: (text, line map [(site, fn)], methods, free fns, structs). With target_ctx (the loop/branch context of
+    one emit site) the derivation is directed at that site."""
     events = [e for e in T.inline(X, T.ROOT) if e.kind == "emit"]
     tree = build_tree(events)
-    r = Renderer(F, X, Derivation(index))
+    d = Derivation(index, target_ctx)
+    if target_ctx:
+        # first pass: decisions that the target fixes are recorded under the keys all spellings of a decision share; the second
+        # pass renders with those decisions in force from the first line on
+        Renderer(F, X, d).render(tree)
+    r = Renderer(F, X, d)
     r.render(tree)
     return r
 
 
-def assemble(F, X, indices):
+def assemble(F, X, indices, targets=None):
     """Segments for the witness crate: header, fixture, one module per sample, helpers, witness tail with per-sample assertions."""
     from . import witness as W
     header = W.const_value(F, "write_xml::HEADER")
@@ -437,7 +496,7 @@ def assemble(F, X, indices):
     asserts = []
     renders = {}
     for i in indices:
-        r = sample(F, X, i)
+        r = sample(F, X, i, (targets or {}).get(i))
         renders[i] = r
         body = "".join(l[0] for l in r.lines)
         text = f"#[allow(non_camel_case_types, non_snake_case, unused)]\npub mod sample_{i} {{\n    use super::*;\n    pub use super::fixture_mod::TyRef;\n" + body + "\n}\n"
